@@ -201,7 +201,7 @@ def eta_diff(a, b):
     return (np.asarray(a) - np.asarray(b) + 180.0) % 360.0 - 180.0
 
 
-def geo_simulate(g, p, t=(0, 0, 0)):
+def geo_simulate(g, p, t=(0, 0, 0), origin=None):
     """Independent forward model: for g-vectors (3,n) in the sample frame return, for both
     omega solutions, detector positions.  Returns dict of arrays of shape (2,n):
     sc, fc, omega (as observed, i.e. divided by omegasign), ok (diffracts and hits the detector plane
@@ -231,7 +231,8 @@ def geo_simulate(g, p, t=(0, 0, 0)):
         sdir = kv * wv
         sdir[0] += 1.0                                        # unit vector along the scattered beam
         omdeg = np.degrees(om)
-        org = geo_grain_origins(omdeg, p, t)
+        # origin(omega_deg) -> (3,n) overrides the rigid-body origin (scanning: the voxel is brought into the beam)
+        org = geo_grain_origins(omdeg, p, t) if origin is None else np.asarray(origin(omdeg), float)
         # intersect org + r*sdir with the plane P0 + s*dS + f*dF
         nrm = np.cross(dS, dF)
         denom = nrm @ sdir
